@@ -136,7 +136,7 @@ func c01R7(h H) {
 				if _, isSl := underlying(t).(*types.Slice); isSl {
 					return anil{}
 				}
-				return aunk{"site field " + path}
+				return unsetField("site field", path, t)
 			}}
 		}
 		env := &absEnv{globals: map[string]*aobj{}, noFork: true, maxSteps: 400000}
